@@ -66,7 +66,11 @@ def check(run):
         for rp in err.split("WARNING: DATA RACE")[1:3]:
             race_rejection(run, "once", "WARNING: DATA RACE" + rp[:2500])
     elif rc != 0:
-        raise Inconclusive("once driver failed rc=%d: %s" % (rc, err[-1500:]))
+        msg = next((ln.strip() for ln in err.splitlines() if ln.startswith(("fatal error:", "panic:", "runtime:"))), "")
+        if not msg:
+            raise Inconclusive("once driver failed rc=%d: %s" % (rc, err[-1500:]))
+        # the process died inside the code under test (e.g. a nil function was called although another caller's function had run)
+        crash_rejection(run, "once", msg, None)
     segs = split_segments(evs, reset_key="ev", reset_val="reset")
     validate(run, "once", "OnceAbsTrace", {}, segs, [], plans=[[s] for s in scs for _ in range(s.get("rounds", 1))][:len(segs)])
     parked = [e for s in segs for e in s if e.get("what") == "parked"]
